@@ -233,14 +233,17 @@ def run_generator(torch, name, p, dtype=None, via="generator"):
     elif name == "kou_jump":
         z = rec.take("engine")
         nj = rec.take("poisson")
-        if n - 1 > 0:
+        lj = None
+        if n - 1 > 0 and (float(nj.sum()) != 0.0 or any(l == "uniform" for l, _ in rec.draws)):
             uni, up, down = rec.take("uniform"), rec.take("exponential"), rec.take("exponential")
             lj = torch.where(uni < p["p_up"], up, -down).to(dtype)
+        # (a call in which NO jump was counted needs no jump sizes: the model request is then complete without them, whether or not
+        # the implementation drew any)
         for i in range(N):
             jumps = []
             for s_ in range(n - 1):
                 c = int(nj[i, s_])
-                jumps.append([float(x) for x in lj[i, s_, :c].tolist()])
+                jumps.append([float(x) for x in lj[i, s_, :c].tolist()] if c else [])
             reqs.append({"op": "gen", "name": name,
                          "p": {"init": fb(p["init"]), "sigma": fb(p["sigma"]), "mu": fb(p["mu"]), "lam": fb(p["lam"]), "eta_up": fb(1 / p["mean_up"]),
                                "eta_down": fb(1 / p["mean_down"]), "p_up": fb(p["p_up"]), "dt": fb(dt)},
